@@ -1,6 +1,7 @@
 package wb
 
 import (
+	"sync/atomic"
 	"time"
 
 	"verif/harness/internal/mon"
@@ -35,6 +36,20 @@ func Declared(b []byte) int64 {
 // BigAllocThreshold go in batches of `batch`; the others are binned as
 // described above. Outcomes come back in input order.
 func RunPartitioned(kind string, inputs [][]byte, declared []int64, batch int, timeout time.Duration) ([]mon.Outcome, error) {
+	outs, err := runPartitioned(kind, inputs, declared, batch, timeout)
+	if err != nil {
+		return nil, err
+	}
+	n, err := ConfirmCrashes(kind, inputs, outs, timeout)
+	NotReproduced.Add(int64(n))
+	return outs, err
+}
+
+// NotReproduced counts crashes that ConfirmCrashes could not reproduce in a
+// fresh child (reported in the evidence).
+var NotReproduced atomic.Int64
+
+func runPartitioned(kind string, inputs [][]byte, declared []int64, batch int, timeout time.Duration) ([]mon.Outcome, error) {
 	outs := make([]mon.Outcome, len(inputs))
 	var si []int
 	var small [][]byte
@@ -84,4 +99,31 @@ func RunPartitioned(kind string, inputs [][]byte, declared []int64, batch int, t
 		}
 	}
 	return outs, nil
+}
+
+// ConfirmCrashes re-runs, alone in a fresh child, every case whose child died
+// of anything other than the Go runtime's out-of-memory error. A child that
+// has already decoded a few hostile bodies can sit close to the 8 GiB
+// address-space limit (Go never unmaps heap address space), and then dies in
+// an innocent case with "runtime/cgo: pthread_create failed" — a death that
+// belongs to the harness's own ulimit, not to the journalled case. A crash that
+// is the case's own doing happens again in a fresh process. Returns how many
+// crashes did not reproduce (their outcome is replaced by the second run's).
+func ConfirmCrashes(kind string, inputs [][]byte, outs []mon.Outcome, timeout time.Duration) (notReproduced int, err error) {
+	for i := range outs {
+		if !outs[i].Crashed || CrashKind(outs[i].Detail) == "oom" {
+			continue
+		}
+		o, e := mon.RunIsolated(kind, [][]byte{inputs[i]}, mon.ChildOpt{VMemKiB: 8 << 20, Timeout: timeout})
+		if e != nil {
+			return notReproduced, e
+		}
+		second := o[0]
+		second.Index = outs[i].Index
+		if !second.Crashed {
+			notReproduced++
+		}
+		outs[i] = second
+	}
+	return notReproduced, nil
 }
